@@ -93,6 +93,115 @@ pub fn defined_fields_differ(a: &RMsg, b: &RMsg) -> Option<String> {
     None
 }
 
+
+/// Field *meaning*: the Debug rendering of the decoded message names every field; each named integer /
+/// boolean must hold the value the reference codec finds at the Clause-13 offset (a symmetric
+/// read/write slip survives the round trip but not this).
+fn debug_fields_differ(dbg: &str, r: &RMsg) -> Option<String> {
+    fn num_after(dbg: &str, key: &str, nth: usize) -> Option<i128> {
+        let mut from = 0;
+        let mut found = None;
+        for _ in 0..=nth {
+            let i = dbg[from..].find(key)? + from;
+            let rest = &dbg[i + key.len()..];
+            let end = rest.find(|c: char| !(c.is_ascii_digit() || c == '-')).unwrap_or(rest.len());
+            found = rest[..end].parse::<i128>().ok();
+            from = i + key.len();
+        }
+        found
+    }
+    fn bool_after(dbg: &str, key: &str) -> Option<bool> {
+        let i = dbg.find(key)?;
+        let rest = &dbg[i + key.len()..];
+        Some(rest.starts_with("true"))
+    }
+    macro_rules! num {
+        ($key:expr, $nth:expr, $want:expr, $name:expr) => {
+            match num_after(dbg, $key, $nth) {
+                Some(v) if v == $want as i128 => {}
+                Some(v) => return Some(format!("{}: decoded {} but the wire holds {}", $name, v, $want)),
+                None => {}
+            }
+        };
+    }
+    macro_rules! flag {
+        ($key:expr, $f:expr, $name:expr) => {
+            match bool_after(dbg, $key) {
+                Some(v) if v == r.header.flag($f) => {}
+                Some(v) => return Some(format!("{}: decoded {} but the wire holds {}", $name, v, r.header.flag($f))),
+                None => {}
+            }
+        };
+    }
+    let h = &r.header;
+    num!("sdo_id: SdoId(", 0, h.sdo_id(), "sdoId");
+    num!("major: ", 0, h.version, "versionPTP");
+    num!("minor: ", 0, h.minor_version, "minorVersionPTP");
+    num!("domain_number: ", 0, h.domain, "domainNumber");
+    num!("sequence_id: ", 0, h.seq, "sequenceId");
+    num!("log_message_interval: ", 0, h.log_interval, "logMessageInterval");
+    num!("port_number: ", 0, h.source.port, "sourcePortIdentity.portNumber");
+    flag!("alternate_master_flag: ", F_ALT_MASTER, "alternateMasterFlag");
+    flag!("two_step_flag: ", F_TWO_STEP, "twoStepFlag");
+    flag!("unicast_flag: ", F_UNICAST, "unicastFlag");
+    flag!("ptp_profile_specific_1: ", F_PROFILE1, "profileSpecific1");
+    flag!("ptp_profile_specific_2: ", F_PROFILE2, "profileSpecific2");
+    flag!("leap61: ", F_LEAP61, "leap61");
+    flag!("leap59: ", F_LEAP59, "leap59");
+    flag!("current_utc_offset_valid: ", F_UTC_VALID, "currentUtcOffsetValid");
+    flag!("ptp_timescale: ", F_PTP_TIMESCALE, "ptpTimescale");
+    flag!("time_tracable: ", F_TIME_TRACEABLE, "timeTraceable");
+    flag!("frequency_tracable: ", F_FREQ_TRACEABLE, "frequencyTraceable");
+    flag!("synchronization_uncertain: ", F_SYNC_UNCERTAIN, "synchronizationUncertain");
+    // the body starts after the header's Debug text
+    let body = dbg.find("body: ").map(|i| &dbg[i..]).unwrap_or("");
+    let bnum = |key: &str, nth: usize| -> Option<i128> { num_after(body, key, nth) };
+    macro_rules! bchk {
+        ($key:expr, $nth:expr, $want:expr, $name:expr) => {
+            match bnum($key, $nth) {
+                Some(v) if v == $want as i128 => {}
+                Some(v) => return Some(format!("{}: decoded {} but the wire holds {}", $name, v, $want)),
+                None => {}
+            }
+        };
+    }
+    match &r.body {
+        RBody::Announce(a) => {
+            // the Announce body repeats the header first; skip to its own fields by key names that are unique to it
+            bchk!("current_utc_offset: ", 0, a.utc_offset, "currentUtcOffset");
+            bchk!("grandmaster_priority_1: ", 0, a.gm_priority1, "grandmasterPriority1");
+            bchk!("clock_class: ", 0, a.gm_class, "grandmasterClockQuality.clockClass");
+            bchk!("offset_scaled_log_variance: ", 0, a.gm_variance, "grandmasterClockQuality.offsetScaledLogVariance");
+            bchk!("grandmaster_priority_2: ", 0, a.gm_priority2, "grandmasterPriority2");
+            bchk!("steps_removed: ", 0, a.steps_removed, "stepsRemoved");
+            bchk!("seconds: ", 0, a.origin.secs, "originTimestamp.seconds");
+            bchk!("nanos: ", 0, a.origin.nanos, "originTimestamp.nanoseconds");
+        }
+        RBody::Sync { origin } | RBody::DelayReq { origin } | RBody::PdelayReq { origin, .. } => {
+            bchk!("seconds: ", 0, origin.secs, "originTimestamp.seconds");
+            bchk!("nanos: ", 0, origin.nanos, "originTimestamp.nanoseconds");
+        }
+        RBody::FollowUp { precise_origin } => {
+            bchk!("seconds: ", 0, precise_origin.secs, "preciseOriginTimestamp.seconds");
+            bchk!("nanos: ", 0, precise_origin.nanos, "preciseOriginTimestamp.nanoseconds");
+        }
+        RBody::DelayResp { receive: ts, requesting } | RBody::PdelayResp { receipt: ts, requesting } | RBody::PdelayRespFup { response_origin: ts, requesting } => {
+            bchk!("seconds: ", 0, ts.secs, "timestamp.seconds");
+            bchk!("nanos: ", 0, ts.nanos, "timestamp.nanoseconds");
+            bchk!("port_number: ", 0, requesting.port, "requestingPortIdentity.portNumber");
+        }
+        RBody::Signaling { target } => {
+            bchk!("port_number: ", 0, target.port, "targetPortIdentity.portNumber");
+        }
+        RBody::Management { target, starting_hops, hops, .. } => {
+            bchk!("port_number: ", 0, target.port, "targetPortIdentity.portNumber");
+            bchk!("starting_boundary_hops: ", 0, *starting_hops, "startingBoundaryHops");
+            bchk!("boundary_hops: ", 1, *hops, "boundaryHops");
+        }
+    }
+    None
+}
+
 pub struct CodecVerdict {
     pub accepted: bool,
     pub ref_accepted: bool,
@@ -160,6 +269,10 @@ pub fn check_bytes(b: &[u8], tail: &[u8]) -> CodecVerdict {
             Ok(r) => r,
             Err(e) => return Err(("ref-rejects-accepted".into(), format!("reference codec rejects input statime accepts: {:?}", e))),
         };
+        if let Some(d) = debug_fields_differ(&format!("{:?}", m), &rin) {
+            let field = d.split(':').next().unwrap_or("").to_string();
+            return Err((format!("field-meaning {} {}", type_name(rin.header.msg_type), field), d));
+        }
         if ntlv != rin.tlvs.len() {
             return Err(("tlv-count".into(), format!("statime iterates {} TLVs, reference finds {}", ntlv, rin.tlvs.len())));
         }
